@@ -1,6 +1,7 @@
 package req
 
 import (
+	"bytes"
 	"crypto/md5"
 	"crypto/rand"
 	"crypto/sha256"
@@ -63,7 +64,16 @@ func handleDigestAuthFunc(username, password string) ResponseMiddleware {
 		}
 		req.Header.Set(header.Authorization, auth)
 		resp.Response, err = client.GetTransport().RoundTrip(&req)
-		return err
+		if err != nil {
+			return err
+		}
+		// the body cached from the 401 response must not be served for the new response
+		resp.body = nil
+		if !client.disableAutoReadResponse && !r.isSaveResponse && !r.disableAutoReadResponse && resp.StatusCode > 199 {
+			resp.ToBytes()
+			resp.Body = io.NopCloser(bytes.NewReader(resp.body))
+		}
+		return resp.Err
 	}
 }
 
